@@ -219,6 +219,7 @@ def r04_4(ctx: Ctx):
     ex = ctx.explorer(inline=lambda f, st: f is tw)
     item = var(er.param_names[1])
     ident = identity_perm(ctx, tw)
+    setz = ctx.ix.cls('SearchDataItem').lookup('SetZ')
     ctx.check(bool(ident), rid, tw.short, tw.loc(), 'the task wrapper uses the identity permutation of functions',
               'the function permutation of the task wrapper is not provably the identity: the slot written by the '
               'objective and the slot read back may differ', key=f'{rid}::{tw.short}::identity-perm')
@@ -233,10 +234,20 @@ def r04_4(ctx: Ctx):
         return v
     fv = attr(item, 'functionValues')
     n = 0
-    setz = ctx.ix.cls('SearchDataItem').lookup('SetZ')
     for p in C.normal_paths(ex.explore(er)):
         calls = C.call_events(p, among=pcs)
         if len(calls) != 1:
+            # a path that records a value without (exactly) one evaluation of the objective for this item: the
+            # recorded value is then not the objective at the recorded point
+            zrec = [e for e in p.events if (e.kind == 'store' and e.d['tkind'] == 'attr' and
+                                            e.d['field'] in ('_SearchDataItem__z', 'value')) or
+                    (e.kind == 'call' and setz in e.d['callees'])]
+            if zrec or not calls:
+                ctx.fail(rid, er.short, er.loc(zrec[-1].node) if zrec else er.loc(),
+                         f'a path of the evaluation routine records a trial value with {len(calls)} evaluations of the '
+                         f'objective (guards: {[repr(g) for g in p.guards][:3]}): the value recorded for that trial '
+                         f'is not the objective evaluated at its own point',
+                         key=f'{rid}::{er.short}::value-without-evaluation')
             continue
         n += 1
         c = calls[0]
